@@ -80,7 +80,7 @@ def check_network(tw, rxns, fails, tags):
         fails.append({"function": "DeficiencyAnalyzer.compute_summary", "violations": viol, "rxns": rxns, "tags": tags})
     # one analyzer object across an edit that reverses a reaction (stale caches must not survive)
     if len(rxns) >= 2 and rxns[-1][0] and rxns[-1][1]:
-        last = sorted(H.edges)[-1]
+        last = list(H.edges)[-1]          # insertion order (sorting the ids would put 'e9' after 'e10')
         r, p = rxns[-1]
         H.remove_rxn(last)
         H.add_rxn(dict(p), dict(r))
